@@ -12,7 +12,7 @@ def _collect(e, fn):
         t = x[0]
         if t in ("v", "p"):
             n = fn.local_name(x[1]) if fn else None
-            if n:
+            if n and n != "self":
                 names.add(n)
         elif t == "f":
             names.add(x[2])
